@@ -1,4 +1,5 @@
 // unit: pair -- haloswap asset helpers, formulas and the halo-pair contract handlers
+#![feature(pattern)]
 use vstd::prelude::*;
 use vstd::std_specs::ops::*;
 use vstd::std_specs::cmp::*;
